@@ -113,6 +113,9 @@ ExtraOK(x) == /\ (x.start.scheme = "https" => x.client = "pm")
 
 MCCfgSet ==
     LET all == CASE Family = "free"    -> {x \in BudgetCfgs : Alpha = "full" \/ x.method = "POST"} \cup HeaderCfgsSmall \cup {x \in ExtraCfgs : ExtraOK(x)}
+                 \* growth module RedirectMeta: the metadata depends on policy, placement, client, method only
+                 [] Family = "metafree" -> {x \in BudgetCfgs : x.method = "POST" /\ (x.reqpol.kind = "none" \/ x.clipol.kind = "none")}
+                 [] Family = "metaplanned" -> BudgetCfgs \cup {x \in ExtraCfgs : ExtraOK(x)}
                  [] Family = "planned" -> BudgetCfgs \cup HeaderCfgs \cup {x \in ExtraCfgs : ExtraOK(x)}
                  [] Family = "sim"     -> BudgetCfgs \cup HeaderCfgs \cup {x \in ExtraCfgs : ExtraOK(x)}
     IN {x \in all : InShard(x.id) /\ (ClientFilter = "all" \/ x.client = ClientFilter)}
